@@ -9,7 +9,7 @@ import traceback
 
 import z3
 
-from .engine import Driver, Unsupported
+from .engine import Driver, Unsupported, loop_shapes
 from . import solve
 
 
@@ -40,12 +40,25 @@ def _load_decorators():
 DECORATORS = _load_decorators()
 
 
+def _load_loops():
+    p = os.path.join(os.path.dirname(os.path.dirname(os.path.abspath(__file__))), 'contracts', 'loops.json')
+    try:
+        with open(p) as f:
+            return json.load(f)
+    except OSError:
+        return {}
+
+
+LOOPS = _load_loops()
+
+
 def verify(contracts, repo, jobs=16, both=False):
     """returns report dict: functions[], obligations[], counts, undecided reasons"""
     t0 = time.time()
     all_obs = []
     functions = []
     problems = []   # machinery-level reasons for UNDECIDED
+    restructured = {}   # qualname -> why a failed obligation of it is a failed proof and not a violation
     for c in contracts:
         entry = {'file': c.file, 'qualname': c.qualname, 'contract': type(c).__name__, 'props': list(c.props)}
         try:
@@ -61,6 +74,17 @@ def verify(contracts, repo, jobs=16, both=False):
             if want is not None and decos != want:
                 problems.append(f'{c.qualname}: decorator list changed from {want} to {decos}: the contract covers the function body only '
                                 '(outside the modelled subset)')
+            # loop invariants are written against loops of a given shape (contracts/loops.json, tools/gen_decorators.py).  When every
+            # obligation still discharges the proof stands whatever the shape; when one fails on a function whose loops were
+            # restructured, the invariant may simply not be the one the new loop needs: a failed proof, not a violation
+            shapes = loop_shapes(d.src.node)
+            rec = LOOPS.get(f'{c.file}::{c.qualname}')
+            if rec is not None and shapes != rec:
+                entry['loops_restructured'] = True
+                diff = [i for i in range(max(len(rec), len(shapes))) if i >= len(rec) or i >= len(shapes) or rec[i] != shapes[i]]
+                what = '; '.join(f'loop{i}: {rec[i] if i < len(rec) else None} -> {shapes[i] if i < len(shapes) else None}' for i in diff[:2])
+                restructured[c.qualname] = (f'loop(s) {diff} of {c.qualname} restructured since the invariants were written '
+                                            f'(contracts/loops.json): {what}')
             if d.unsupported:
                 entry['unsupported'] = d.unsupported[:5]
                 problems.append(f'{c.qualname}: outside the modelled subset: {d.unsupported[0]}')
@@ -124,6 +148,7 @@ def verify(contracts, repo, jobs=16, both=False):
         'wall_s': round(time.time() - t0, 2),
         'problems': problems,
         'failed': failed,
+        'restructured': restructured,
     }
     return report
 
